@@ -9,6 +9,7 @@
  * The functions take in a squared argument to play nicer with autodiff.
  */
 
+#include <array>
 #include <cmath>
 
 #include "common.hpp"
@@ -102,6 +103,42 @@ S cos_6(const S & x2)
   } else {
     return -trig_tail_series<6>(x2);
   }
+}
+
+template<typename S>
+S sin_7(const S & x2)
+{
+  using std::sin, std::sqrt;
+
+  if (x2 > S(trig_series_x2)) {
+    const S x  = sqrt(x2);
+    const S x3 = x2 * x;
+    return (sin(x) - x + x3 / S(6) - x3 * x2 / S(120)) / (x3 * x2 * x2);
+  } else {
+    return -trig_tail_series<7>(x2);
+  }
+}
+
+/**
+ * @brief Coefficient A(x) = 1/x^2 - (1 + cos x) / (2 x sin x) of ad^2 in the inverse of the
+ * exponential Jacobian, and A'(x) / x, written in terms of the Taylor tails so that neither
+ * suffers from cancellation for small x.
+ *
+ * With s3 = sin_3, c2 = cos_2, c4 = cos_4, s5 = sin_5:
+ *   A = P / (2 S),  P = 2 s3 - c2,  S = sin(x) / x = 1 + x^2 s3,
+ *   P'/x = s3 + 4 c4 - 6 s5,  S'/x = 2 s3 + x^2 (c4 - 3 s5).
+ *
+ * @return {A, A'/x}
+ */
+template<typename S>
+std::array<S, 2> dexpinv_coefs(const S & x2)
+{
+  const S s3 = sin_3(x2), c2 = cos_2(x2), c4 = cos_4(x2), s5 = sin_5(x2);
+  const S P     = S(2) * s3 - c2;
+  const S Sx    = S(1) + x2 * s3;
+  const S dP_x  = s3 + S(4) * c4 - S(6) * s5;
+  const S dSx_x = S(2) * s3 + x2 * (c4 - S(3) * s5);
+  return {P / (S(2) * Sx), (dP_x * Sx - P * dSx_x) / (S(2) * Sx * Sx)};
 }
 
 }  // namespace detail
